@@ -174,7 +174,18 @@ impl<'a> Gen<'a> {
                 ));
             }
             if !self.k.classes_only && r.p(3) {
-                s.push_str(r.pick(&[" color=red", " bgcolor=#123456", " bgcolor=00aabb", " color=\"#f00\""]));
+                if r.p(50) {
+                    s.push_str(r.pick(&[" color=red", " bgcolor=#123456", " bgcolor=00aabb", " color=\"#f00\""]));
+                } else {
+                    // legacy colour attributes with arbitrary values: hex digits with and without '#', short and long, with
+                    // blanks, non-hex letters, functions and non-ASCII characters at every byte offset
+                    const A: &[&str] = &["0", "1", "9", "a", "F", "c", "g", "z", "#", " ", "é", "字", "rgb(", ")", ",", "%", "-", ".", "\u{3000}", "\u{301}"];
+                    let mut v = String::new();
+                    for _ in 0..r.b(10) {
+                        v.push_str(r.pick(A));
+                    }
+                    s.push_str(&format!(" {}=\"{}\"", r.pick(&["color", "bgcolor"]), v));
+                }
             }
         }
         s
